@@ -107,3 +107,7 @@ pub use crate::state::{
 
 mod macros;
 mod state;
+
+#[cfg(cadence_verif)]
+#[doc(hidden)]
+pub mod verif;
